@@ -875,6 +875,30 @@ def build_streams(chk, names, sizes):
         if m != n:
             lines.append(f'charset search {hexchars(m)}'); outs.append(impl_search(m))
     fam['names'] = (lines, outs)
+    # ---- the registry: the model of `codecs.lookup(name).name` (C normalisation, alias table, encodings.<module>, the tool's search
+    # function) against the running interpreter, on the name pool and on punctuation / case / dot variants of it
+    lines, outs = [], []
+    seen = set()
+    def registry_line(n):
+        if n in seen or '\0' in n:
+            return
+        try:
+            n.encode('utf-8')
+        except UnicodeEncodeError:
+            return
+        seen.add(n)
+        c = lookup_name(n)
+        lines.append(f'charset lookup {hexchars(n)}'); outs.append('none' if c is None else 'some ' + hexchars(c))
+    for n in names:
+        registry_line(n)
+        for v in (n.upper(), n.lower().replace('-', '_'), n.replace('_', ' '), ' ' + n + ' ', n.replace('-', '--'), n.replace('_', '.'), n.replace('-', '.'),
+                  '-' + n, n + '!', n.replace('8', '-8', 1), 'é' + n, n[:-1] + '.' + n[-1:] if n else n):
+            if rng.random() < 0.25:
+                registry_line(v)
+    for n in ['', '.', '..', '_', 'aliases', 'encodings.utf_8', 'utf.8', 'utf_8.', '.utf_8', 'utf_8_', 'UTF 8', 'utf\t8', 'ISO_8859-1:1987', 'iso.8859.1', '8859_1', '8859-1',
+              '8859', 'mbcs', 'oem', 'koi8.t', 'KOI8 T', 'euc tw', 'euc.tw', 'georgian ps', 'viscii.', 'x!!y', 'latin-1', 'l1', 'L 1', 'u8', 'U.8', 'cp-1252', 'cp_1252', 'cp.1252']:
+        registry_line(n)
+    fam['registry'] = (lines, outs)
     # ---- charmap codecs
     lines, outs = [], []
     try:
